@@ -3,6 +3,7 @@
   interpreter used for C11 / C15.
 -/
 import FfuzzyModel.Driver2
+import FfuzzyModel.Ops
 import FfuzzyModel.Spec.Naive
 namespace Ffuzzy.Driver
 open Ffuzzy
@@ -174,16 +175,6 @@ def runFile (args : List String) : String × String :=
 
 /-! ### ops: object store interpreter (C11, C15) -/
 
-structure Store where
-  r : FH := FH.new 32
-  lr : FH := FH.new 64
-  n : FH := FH.new 32
-  ln : FH := FH.new 64
-  d : DH := DH.new 32
-  ld : DH := DH.new 64
-  t : Target := Target.new
-  p : PA := PA.new
-
 def fhSt (name : String) (s2 : Nat) (norm : Bool) (h : FH) : String :=
   s!"{name}={fhText h}|{b2s (FH.isValid s2 norm h)}"
 
@@ -193,157 +184,95 @@ def dhSt (name : String) (s2 : Nat) (d : DH) : String :=
 def tSt (t : Target) : String := s!"T={t.log.toNat}|{t.len1.toNat}|{t.len2.toNat}|{b2s t.isValid}"
 def pSt (p : PA) : String := s!"P={p.len.toNat}|{b2s p.isValid}|{b2s p.isValidAndNormalized}"
 
-/-- one store operation; returns the new store and the printed token -/
-def storeOp (cfg : Cfg) (st : Store) (tok : String) : Store × String :=
-  let parts := tok.splitOn ":"
-  let getFH (t : String) : Option (FH × Nat × Bool) :=
-    match t with
-    | "R" => some (st.r, 32, false) | "LR" => some (st.lr, 64, false)
-    | "N" => some (st.n, 32, true) | "LN" => some (st.ln, 64, true) | _ => none
-  let setFH (t : String) (h : FH) : Store :=
-    match t with
-    | "R" => { st with r := h } | "LR" => { st with lr := h }
-    | "N" => { st with n := h } | "LN" => { st with ln := h } | _ => st
-  let showFH (t : String) (h : FH) : String :=
-    match t with
-    | "R" => fhSt "R" 32 false h | "LR" => fhSt "LR" 64 false h
-    | "N" => fhSt "N" 32 true h | "LN" => fhSt "LN" 64 true h | _ => "bad-op"
-  match parts with
+def slotOf (t : String) : Option Slot :=
+  match t with
+  | "R" => some .R | "LR" => some .LR | "N" => some .N | "LN" => some .LN | _ => none
+
+def slotName : Slot → String | .R => "R" | .LR => "LR" | .N => "N" | .LN => "LN"
+
+def dualOfName (t : String) : Option Bool :=
+  match t with | "D" => some false | "LD" => some true | _ => none
+
+def cvOf (name : String) : Option Cv :=
+  match name with
+  | "R>N" => some .R_N | "LR>LN" => some .LR_LN | "N>R" => some .N_R | "N>R!" => some .N_R_mut
+  | "LN>LR" => some .LN_LR | "LN>LR!" => some .LN_LR_mut | "R>LR" => some .R_LR | "R>LR!" => some .R_LR_mut
+  | "N>LN" => some .N_LN | "N>LN!" => some .N_LN_mut | "N>LR" => some .N_LR
+  | "LR>R?" => some .LR_R | "LR>R?!" => some .LR_R_mut | "LN>N?" => some .LN_N | "LN>N?!" => some .LN_N_mut
+  | "R>D" => some .R_D | "R>D!" => some .R_D_mut | "LR>LD" => some .LR_LD | "LR>LD!" => some .LR_LD_mut
+  | "N>D" => some .N_D | "LN>LD" => some .LN_LD | "D>R" => some .D_R | "D>R!" => some .D_R_mut
+  | "LD>LR" => some .LD_LR | "LD>LR!" => some .LD_LR_mut | "D>N" => some .D_N | "LD>LN" => some .LD_LN
+  | _ => none
+
+def tsrcOf (t : String) : Option TSrc :=
+  match t with | "N" => some .N | "LN" => some .LN | "D" => some .D | "LD" => some .LD | _ => none
+
+/-- decode one token of the `ops` line protocol into a typed operation -/
+def decodeOp (tok : String) : Option SOp :=
+  match tok.splitOn ":" with
   | ["gen", t, h] =>
     match bytesOfHex h with
-    | none => (st, "bad-op")
-    | some bs =>
-      let g := Gen.new.update bs
-      if t == "R" then
-        match g.finalize with
-        | .ok d => let h := d.toFH 32; ({ st with r := h }, fhSt "R" 32 false h)
-        | .error _ => (st, "ERR")
-      else
-        match g.finalizeWithoutTruncation with
-        | .ok d => let h := d.toFH 64; ({ st with lr := h }, fhSt "LR" 64 false h)
-        | .error _ => (st, "ERR")
+    | none => none
+    | some bs => some (.gen (t != "R") bs)
   | ["parse", t, h] =>
-    match bytesOfHex h, tyOf t with
-    | some bs, some ty =>
-      if ty.dual then
-        match DH.parse cfg ty.s2 bs with
-        | none => (st, "PANIC")
-        | some (.error _) => (st, "ERR")
-        | some (.ok (d, _)) =>
-          if ty.s2 = 32 then ({ st with d := d }, dhSt "D" 32 d) else ({ st with ld := d }, dhSt "LD" 64 d)
-      else
-        match FH.parse cfg ty.s2 ty.norm bs with
-        | .error _ => (st, "ERR")
-        | .ok (h, _) => (setFH t h, showFH t h)
-    | _, _ => (st, "bad-op")
-  | ["new", t, k, b1, b2] =>
-    match tyOf t, k.toNat?, bytesOfHex b1, bytesOfHex b2 with
-    | some ty, some k, some b1, some b2 =>
-      if ty.dual then
-        match DH.newFromInternalsNearRaw ty.s2 k.toUInt8 b1 b2 with
-        | none => (st, "PANIC")
-        | some d => if ty.s2 = 32 then ({ st with d := d }, dhSt "D" 32 d) else ({ st with ld := d }, dhSt "LD" 64 d)
-      else
-        match FH.newFromInternalsNearRaw ty.s2 ty.norm k.toUInt8 b1 b2 with
-        | none => (st, "PANIC")
-        | some h => (setFH t h, showFH t h)
-    | _, _, _, _ => (st, "bad-op")
-  | ["newbs", t, bsz, b1, b2] =>
-    match tyOf t, bsz.toNat?, bytesOfHex b1, bytesOfHex b2 with
-    | some ty, some bsz, some b1, some b2 =>
-      if ty.dual then
-        match DH.newFromInternals ty.s2 bsz.toUInt32 b1 b2 with
-        | none => (st, "PANIC")
-        | some d => if ty.s2 = 32 then ({ st with d := d }, dhSt "D" 32 d) else ({ st with ld := d }, dhSt "LD" 64 d)
-      else
-        match FH.newFromInternals ty.s2 ty.norm bsz.toUInt32 b1 b2 with
-        | none => (st, "PANIC")
-        | some h => (setFH t h, showFH t h)
-    | _, _, _, _ => (st, "bad-op")
-  | ["init", t, k, a1, a2, l1, l2] =>
-    match getFH t, k.toNat?, bytesOfHex a1, bytesOfHex a2, l1.toNat?, l2.toNat? with
-    | some (self, s2, norm), some k, some a1, some a2, some l1, some l2 =>
-      if a1.length != 64 || a2.length != s2 then (st, "bad-op") else
-      match FH.initFromInternalsRaw s2 norm self k.toUInt8 a1 a2 l1.toUInt8 l2.toUInt8 with
-      | none => (st, "PANIC")
-      | some h => (setFH t h, showFH t h)
-    | _, _, _, _, _, _ => (st, "bad-op")
-  | ["norm", t] =>
-    match getFH t with
-    | some (h, _, norm) => let h' := FH.normalizeInPlace norm h; (setFH t h', showFH t h')
-    | none =>
-      if t == "D" then let d := DH.normalizeInPlace 32 st.d; ({ st with d := d }, dhSt "D" 32 d)
-      else if t == "LD" then let d := DH.normalizeInPlace 64 st.ld; ({ st with ld := d }, dhSt "LD" 64 d)
-      else (st, "bad-op")
-  | ["cv", name] =>
-    match name with
-    | "R>N" => let h := FH.normalize false st.r; ({ st with n := h }, fhSt "N" 32 true h)
-    | "LR>LN" => let h := FH.normalize false st.lr; ({ st with ln := h }, fhSt "LN" 64 true h)
-    | "N>R" => let h := FH.toRawForm st.n; ({ st with r := h }, fhSt "R" 32 false h)
-    | "N>R!" => let h := FH.intoMutRawForm st.n st.r; ({ st with r := h }, fhSt "R" 32 false h)
-    | "LN>LR" => let h := FH.toRawForm st.ln; ({ st with lr := h }, fhSt "LR" 64 false h)
-    | "LN>LR!" => let h := FH.intoMutRawForm st.ln st.lr; ({ st with lr := h }, fhSt "LR" 64 false h)
-    | "R>LR" => let h := FH.toLongForm st.r; ({ st with lr := h }, fhSt "LR" 64 false h)
-    | "R>LR!" => let h := FH.intoMutLongForm st.r st.lr; ({ st with lr := h }, fhSt "LR" 64 false h)
-    | "N>LN" => let h := FH.toLongForm st.n; ({ st with ln := h }, fhSt "LN" 64 true h)
-    | "N>LN!" => let h := FH.intoMutLongForm st.n st.ln; ({ st with ln := h }, fhSt "LN" 64 true h)
-    | "N>LR" => let h := FH.shortNormToLongRaw st.n; ({ st with lr := h }, fhSt "LR" 64 false h)
-    | "LR>R?" =>
-      match FH.tryFromLong st.lr with
-      | some h => ({ st with r := h }, fhSt "R" 32 false h) | none => (st, "ERR " ++ fhSt "R" 32 false st.r)
-    | "LR>R?!" =>
-      match FH.tryIntoMutShort st.lr st.r with
-      | some h => ({ st with r := h }, fhSt "R" 32 false h) | none => (st, "ERR " ++ fhSt "R" 32 false st.r)
-    | "LN>N?" =>
-      match FH.tryFromLong st.ln with
-      | some h => ({ st with n := h }, fhSt "N" 32 true h) | none => (st, "ERR " ++ fhSt "N" 32 true st.n)
-    | "LN>N?!" =>
-      match FH.tryIntoMutShort st.ln st.n with
-      | some h => ({ st with n := h }, fhSt "N" 32 true h) | none => (st, "ERR " ++ fhSt "N" 32 true st.n)
-    | "R>D" =>
-      match DH.fromRawForm 32 st.r with
-      | some d => ({ st with d := d }, dhSt "D" 32 d) | none => (st, "PANIC")
-    | "R>D!" =>
-      match DH.initFromRawForm st.d st.r with
-      | some d => ({ st with d := d }, dhSt "D" 32 d) | none => (st, "PANIC")
-    | "LR>LD" =>
-      match DH.fromRawForm 64 st.lr with
-      | some d => ({ st with ld := d }, dhSt "LD" 64 d) | none => (st, "PANIC")
-    | "LR>LD!" =>
-      match DH.initFromRawForm st.ld st.lr with
-      | some d => ({ st with ld := d }, dhSt "LD" 64 d) | none => (st, "PANIC")
-    | "N>D" => let d := DH.fromNormalized 32 st.n; ({ st with d := d }, dhSt "D" 32 d)
-    | "LN>LD" => let d := DH.fromNormalized 64 st.ln; ({ st with ld := d }, dhSt "LD" 64 d)
-    | "D>R" => let h := DH.toRawForm 32 st.d; ({ st with r := h }, fhSt "R" 32 false h)
-    | "D>R!" => let h := DH.intoMutRawForm st.d st.r; ({ st with r := h }, fhSt "R" 32 false h)
-    | "LD>LR" => let h := DH.toRawForm 64 st.ld; ({ st with lr := h }, fhSt "LR" 64 false h)
-    | "LD>LR!" => let h := DH.intoMutRawForm st.ld st.lr; ({ st with lr := h }, fhSt "LR" 64 false h)
-    | "D>N" => let h := st.d.norm; ({ st with n := h }, fhSt "N" 32 true h)
-    | "LD>LN" => let h := st.ld.norm; ({ st with ln := h }, fhSt "LN" 64 true h)
-    | _ => (st, "bad-op")
-  | ["tgt", t] =>
-    match t with
-    | "N" => let x := st.t.initFrom st.n; ({ st with t := x }, tSt x)
-    | "LN" => let x := st.t.initFrom st.ln; ({ st with t := x }, tSt x)
-    | "D" => let x := st.t.initFrom st.d.norm; ({ st with t := x }, tSt x)
-    | "LD" => let x := st.t.initFrom st.ld.norm; ({ st with t := x }, tSt x)
-    | _ => (st, "bad-op")
-  | ["tgtnew", t] =>
-    match t with
-    | "N" => let x := Target.fromHash st.n; ({ st with t := x }, tSt x)
-    | "LN" => let x := Target.fromHash st.ln; ({ st with t := x }, tSt x)
-    | "D" => let x := Target.fromHash st.d.norm; ({ st with t := x }, tSt x)
-    | "LD" => let x := Target.fromHash st.ld.norm; ({ st with t := x }, tSt x)
-    | _ => (st, "bad-op")
-  | ["pa", h] =>
     match bytesOfHex h with
-    | none => (st, "bad-op")
+    | none => none
     | some bs =>
-      match st.p.initFrom bs with
-      | none => (st, "PANIC")
-      | some p => ({ st with p := p }, pSt p)
-  | ["pac"] => let p := st.p.clear; ({ st with p := p }, pSt p)
-  | _ => (st, "bad-op")
+      match slotOf t, dualOfName t with
+      | some sl, _ => some (.parseFH sl bs)
+      | none, some long => some (.parseDH long bs)
+      | none, none => none
+  | ["new", t, k, b1, b2] =>
+    match k.toNat?, bytesOfHex b1, bytesOfHex b2 with
+    | some k, some b1, some b2 =>
+      match slotOf t, dualOfName t with
+      | some sl, _ => some (.newFH sl k b1 b2)
+      | none, some long => some (.newDH long k b1 b2)
+      | none, none => none
+    | _, _, _ => none
+  | ["newbs", t, bsz, b1, b2] =>
+    match bsz.toNat?, bytesOfHex b1, bytesOfHex b2 with
+    | some bsz, some b1, some b2 =>
+      match slotOf t, dualOfName t with
+      | some sl, _ => some (.newbsFH sl bsz b1 b2)
+      | none, some long => some (.newbsDH long bsz b1 b2)
+      | none, none => none
+    | _, _, _ => none
+  | ["init", t, k, a1, a2, l1, l2] =>
+    match slotOf t, k.toNat?, bytesOfHex a1, bytesOfHex a2, l1.toNat?, l2.toNat? with
+    | some sl, some k, some a1, some a2, some l1, some l2 => some (.init sl k a1 a2 l1 l2)
+    | _, _, _, _, _, _ => none
+  | ["norm", t] =>
+    match slotOf t, dualOfName t with
+    | some sl, _ => some (.normFH sl)
+    | none, some long => some (.normDH long)
+    | none, none => none
+  | ["cv", name] => (cvOf name).map .cv
+  | ["tgt", t] => (tsrcOf t).map .tgt
+  | ["tgtnew", t] => (tsrcOf t).map .tgtnew
+  | ["pa", h] => (bytesOfHex h).map .pa
+  | ["pac"] => some .pac
+  | _ => none
+
+def showSlot (st : Store) (t : Slot) : String := fhSt (slotName t) t.s2 t.norm (st.get t)
+
+def renderOutcome (st : Store) : Outcome → String
+  | .fh t => showSlot st t
+  | .dh long => if long then dhSt "LD" 64 st.ld else dhSt "D" 32 st.d
+  | .tgt => tSt st.t
+  | .pa => pSt st.p
+  | .err => "ERR"
+  | .errKeep t => "ERR " ++ showSlot st t
+  | .panic => "PANIC"
+  | .bad => "bad-op"
+
+/-- one store operation; returns the new store and the printed token -/
+def storeOp (cfg : Cfg) (st : Store) (tok : String) : Store × String :=
+  match decodeOp tok with
+  | none => (st, "bad-op")
+  | some op =>
+    let (st', o) := applyOp cfg st op
+    (st', renderOutcome st' o)
 
 def runOps (cfg : Cfg) (toks : List String) : String × String :=
   let (_, out) := toks.foldl (fun (acc : Store × List String) tok =>
